@@ -32,7 +32,10 @@ Init == \/ Kind = "raw" /\ \E k \in 0..MaxBits : \E b \in Bits(k) : c = [t |-> "
         \/ Kind = "rl" /\ \E r \in RLCases : c = [t |-> "rl", runs |-> r.runs, extra |-> r.extra,
                                                    n |-> (IF Len(r.runs) = 0 THEN 0 ELSE r.runs[Len(r.runs)][1] + r.runs[Len(r.runs)][2]) + r.tail]
         \/ Kind = "wm" /\ \E v \in Vecs({0, 1, 2, 3}, 4) \cup Vecs({0, 5}, 3) \cup Vecs({7}, 2) : \E core \in BOOLEAN : c = [t |-> IF core THEN "wmcore" ELSE "wm", vals |-> v]
+        \* cores with up to 64 levels: items given as sets of bit positions
+        \/ Kind = "wm" /\ \E v \in Vecs({{}, {63}, {0, 63}, {5, 62}}, 3) \cup Vecs({{40}, {0}}, 2) : c = [t |-> "wmcore64", vals |-> v]
 Next == UNCHANGED c
+WidthOfSets(v) == IF UNION SeqToSet(v) = {} THEN 1 ELSE 1 + (CHOOSE b \in UNION SeqToSet(v) : \A x \in UNION SeqToSet(v) : x <= b)
 
 File == CASE c.t = "raw" -> EncRawBits(c.bits)
           [] c.t = "int" -> EncInt(c.w, c.items)
@@ -41,6 +44,7 @@ File == CASE c.t = "raw" -> EncRawBits(c.bits)
           [] c.t = "rl" -> EncRL(c.n, c.runs, c.extra)
           [] c.t = "wmcore" -> EncCore(c.vals).file
           [] c.t = "wm" -> EncWM(c.vals)
+          [] c.t = "wmcore64" -> EncCoreSets(c.vals, WidthOfSets(c.vals))
 
 OnesOfBits(b) == {i - 1 : i \in {j \in 1..Len(b) : b[j]}}
 RoundTrip ==
@@ -53,6 +57,7 @@ RoundTrip ==
       [] c.t = "rl" -> RLWFCore(f, 1) /\ (c.extra = 0 => RLSampleWidthMinimal(f, 1)) /\ N(f, 1) = c.n /\ RLRuns(f, 1) = c.runs /\ RLNext(f, 1) = Len(f) + 1
       [] c.t = "wmcore" -> CoreWF(f, 1) /\ CoreItems(f, 1) = c.vals /\ CoreNext(f, 1) = Len(f) + 1
       [] c.t = "wm" -> WMWF(f, 1) /\ CoreItems(f, 2) = c.vals /\ WMNext(f, 1) = Len(f) + 1
+      [] c.t = "wmcore64" -> CoreWF(f, 1) /\ CoreWidth(f, 1) = WidthOfSets(c.vals) /\ CoreItemSets(f, 1) = c.vals /\ CoreNext(f, 1) = Len(f) + 1
 
 \* elements as sorted position lists for the harness
 ElemsOut(f) == [k \in 1..Len(f) |-> SetToSortSeq(f[k], <)]
@@ -60,6 +65,7 @@ Content == CASE c.t \in {"raw", "bv"} -> [len |-> Len(c.bits), ones |-> SetToSor
              [] c.t = "int" -> [w |-> c.w, items |-> c.items]
              [] c.t = "sparse" -> [len |-> c.n, ones |-> c.ps, w |-> c.w]
              [] c.t = "rl" -> [len |-> c.n, runs |-> c.runs]
+             [] c.t = "wmcore64" -> [vals |-> [i \in 1..Len(c.vals) |-> SetToSortSeq(c.vals[i], <)]]
              [] OTHER -> [vals |-> c.vals]
 Emit == RoundTrip /\ PrintT(<<"REPLAY", ToJson([k |-> "format", t |-> c.t, elems |-> ElemsOut(File), content |-> Content])>>)
 =============================================================================
